@@ -2644,3 +2644,131 @@ func ruleTracerFromCallContext(id string) func(*Checker) {
 		_ = n
 	}
 }
+
+// ---- round 15 ----
+
+// ruleRefusalsOfPack — Pack refuses a tree only for the reasons it has today.
+func ruleRefusalsOfPack(id string) func(*Checker) {
+	return func(c *Checker) {
+		c.rule(id, "In what Pack reaches in the slug package, an error made on the spot without the error of a failed call behind it (fmt.Errorf / errors.New whose arguments carry no error that a call returned — a wrapped library sentinel such as os.ErrPermission is not a failed call) is one of: a policy rejection stored in an *IllegalSlugError; a limit check (it sits behind the comparison of a counter with a constant); the report of a file mode none of the kinds covers (it formats an os.FileMode); the refusal to read another file than the one examined (behind the false edge of os.SameFile). Anything else is a new refusal decided from metadata — `no read bit, so opening would fail anyway` — and makes Pack fail on trees it packed before (a root process reads a mode-0000 file).", 1)
+		p := c.P
+		pack := p.Fn("slug", "Packer.Pack")
+		if pack == nil {
+			c.anchorMissing(id, "(*Packer).Pack")
+			return
+		}
+		callDerived := func(v ssa.Value) bool {
+			for w := range p.backSlice(v, 0) {
+				switch x := w.(type) {
+				case *ssa.Call:
+					if res := x.Call.Signature().Results(); res.Len() > 0 && isErrorType(res.At(res.Len()-1).Type()) {
+						return true
+					}
+				case *ssa.Parameter:
+					if isErrorType(x.Type()) {
+						return true // the walk callback's own err parameter
+					}
+				}
+			}
+			return false
+		}
+		for _, fn := range sortedFuncs(p.reach(pack)) {
+			if !p.InModule(fn) || pkgPathOf(p, fn) != p.PkgPath("slug") {
+				continue
+			}
+			for _, ci := range callsIn(fn) {
+				cl, ok := ci.(*ssa.Call)
+				if !ok {
+					continue
+				}
+				o := calleeObj(cl)
+				if !(isFunc(o, "errors", "New") || isFunc(o, "fmt", "Errorf")) {
+					continue
+				}
+				hasCause := false
+				for _, a := range errorArgsOfFresh(cl) {
+					if callDerived(a) {
+						hasCause = true
+					}
+				}
+				if hasCause {
+					continue
+				}
+				// only what Pack hands back: an error value built for a warning text is not a refusal
+				if u := p.errorUses(fn, cl); !u.Returned {
+					continue
+				}
+				reason := ""
+				// (a) kept in an IllegalSlugError
+				if refs := cl.Referrers(); refs != nil {
+					for _, r := range *refs {
+						if st, ok := r.(*ssa.Store); ok && st.Val == ssa.Value(cl) {
+							if fa, ok := st.Addr.(*ssa.FieldAddr); ok && fieldOf(fa) != nil && fieldOf(fa).Name() == "Err" && isNamedT(derefType(fa.X.Type()), "IllegalSlugError") {
+								reason = "policy rejection kept in an IllegalSlugError"
+							}
+						}
+					}
+				}
+				// (b) a limit: behind the comparison of an integer with a constant
+				if reason == "" {
+					for _, b := range fn.Blocks {
+						ifi, ok := b.Instrs[len(b.Instrs)-1].(*ssa.If)
+						if !ok {
+							continue
+						}
+						cnd, _ := stripNot(ifi.Cond)
+						bo, ok := cnd.(*ssa.BinOp)
+						if !ok || (bo.Op != token.GEQ && bo.Op != token.GTR && bo.Op != token.LSS && bo.Op != token.LEQ) {
+							continue
+						}
+						if _, isC := constInt(bo.Y); !isC {
+							continue
+						}
+						if bt, ok := bo.X.Type().Underlying().(*types.Basic); !ok || bt.Info()&types.IsInteger == 0 {
+							continue
+						}
+						if guarded(cl.Block(), []Edge{{b, 0}}) || guarded(cl.Block(), []Edge{{b, 1}}) {
+							reason = "limit check"
+						}
+					}
+				}
+				// (d) the file that would be read is not the file that was examined (os.SameFile said no)
+				if reason == "" {
+					_, sf := condEdges(fn, func(v ssa.Value) bool {
+						k, ok := v.(*ssa.Call)
+						return ok && isFunc(calleeObj(k), "os", "SameFile")
+					})
+					if len(sf) > 0 && guarded(cl.Block(), sf) {
+						reason = "examined file and opened file differ (os.SameFile)"
+					}
+				}
+				// (c) reports a file mode it has no kind for
+				if reason == "" {
+					for _, a := range cl.Call.Args {
+						if sl, ok := a.(*ssa.Slice); ok {
+							if al, ok := sl.X.(*ssa.Alloc); ok {
+								for _, w := range elemWrites(al) {
+									v := w.Val
+									if mi, ok := v.(*ssa.MakeInterface); ok {
+										v = mi.X
+									}
+									if strings.HasSuffix(v.Type().String(), "FileMode") {
+										reason = "reports an unhandled file mode"
+									}
+								}
+							}
+						}
+					}
+				}
+				what := "cause-less error"
+				if k, isC := constString(cl.Call.Args[0]); isC {
+					if len(k) > 28 {
+						k = k[:28]
+					}
+					what += " " + strconv.Quote(k)
+				}
+				c.check(reason != "", id, p.FuncName(fn), what, p.Pos(cl.Pos()), reason, "Pack returns an error of its own making that is neither a policy rejection (IllegalSlugError), a limit, nor the report of an unknown file mode: a refusal decided from metadata alone — a tree that packed before is refused now")
+			}
+		}
+	}
+}
